@@ -1,14 +1,19 @@
 #!/bin/bash
 # selftest.sh [name-prefix]: runs every own mutant (mutants/<name>/mutant.json, named <prop>-<what>) through
 # the quick tier of its property and reports whether the check flags it. Output goes to
-# .build/mutant-<name>/ (never to evidence/). Exit 0 iff every mutant applies and is caught.
+# .build/mutant-<name>/ (never to evidence/). Exit 0 iff every mutant applies and is caught
+# (mutants/<name>/expect_drift: the reference model must report drift instead).
 cd "$(dirname "${BASH_SOURCE[0]}")"
 bad=0
 for d in mutants/${1:-}*/; do
   m=$(basename "$d"); p=${m%%-*}
   out=$(./check "$p" quick --mutant "$m" 2>&1); e=$?
   n=$(grep -c '^VIOLATION' <<<"$out")
-  if [ $e -eq 1 ] && [ "$n" -gt 0 ]; then echo "caught   $m ($n fingerprints)"
+  if [ -f "mutants/$m/expect_drift" ]; then
+    # a mutant inside what the statement leaves open: the layer-2 reference model must report drift, the clauses nothing
+    dr=$(jq '[.coverage | to_entries[] | select(.key|test("model_drift")) | .value | numbers] | add // 0' ".build/mutant-$m/evidence/$p.json" 2>/dev/null)
+    if [ $e -eq 0 ] && [ "${dr:-0}" -gt 0 ]; then echo "drift    $m (model_drift=$dr, no violation: as intended)"; else echo "MISSED   $m (exit $e, model_drift=${dr:-0})"; bad=1; fi
+  elif [ $e -eq 1 ] && [ "$n" -gt 0 ]; then echo "caught   $m ($n fingerprints)"
   elif [ $e -eq 2 ]; then echo "BROKEN   $m: $(tail -2 <<<"$out" | head -1 | cut -c1-160)"; bad=1
   else echo "MISSED   $m (exit $e)"; bad=1; fi
 done
